@@ -153,7 +153,9 @@ func permute(n int, f func([]int) bool) {
 
 func runC07(c *ctx) {
 	c.res.Rule = "xor: every delivery order of the in-flight envelopes (n=2,3) plus one duplicate and one foreign/stale injection at every position; " +
-		"FROST keygen/sign(+taproot): seeded schedules (random+dups, LIFO, latest-round-first/p2p-before-broadcast); non-trivial = at least one delivery; distinct by delivery order"
+		"FROST keygen/sign(+taproot): seeded schedules (random+dups, LIFO, latest-round-first/p2p-before-broadcast); " +
+		"conflicting duplicates (xor, FROST keygen/sign): after every genuine delivery a second, different but individually valid message of the same sender / round / kind (from a second honest instance of the sender, and the genuine one re-encoded), " +
+		"while the round is to come / open / closed: state fingerprint unchanged, in-order result, model replay; non-trivial = at least one delivery; distinct by delivery order"
 	if c.replay != "" {
 		var rp schedReplay
 		if readJSON(c.replay, &rp) == nil && strings.HasPrefix(rp.Spec, "doerner-") {
@@ -169,6 +171,17 @@ func runC07(c *ctx) {
 		sp := specXOR(ids, []byte("sid-1"))
 		refS, _, ref := c.runSchedule(sp, 7, func(*Sim) Policy { return func(*Sim) (int, bool) { return 0, false } })
 		sh := refS.learnShape()
+		// conflicting duplicates (conflict.go): a second, different xor value of the same sender after the first one
+		{
+			cs := conflictHarvest(sp, 7)
+			for _, note := range cs.Notes {
+				c.res.Note("C07 %s conflicting duplicates: %s", sp.Name, note)
+			}
+			for _, pn := range conflictPols {
+				pn := pn
+				c.c07Conflict(sp, 7, pn, func(s *Sim) Policy { s.rng = rand.New(rand.NewSource(7 + c.res.Seed)); return c07Policy(pn)(s) }, cs, ref, sh)
+			}
+		}
 		total := n * (n - 1)
 		cnt := 0
 		limit := 720
@@ -217,6 +230,19 @@ func runC07(c *ctx) {
 			s, order, res := c.runSchedule(sp, seed, func(s *Sim) Policy { s.rng = rand.New(rand.NewSource(seed + int64(k))); return pols[pn](s) })
 			c.checkRun(sp, seed, pn, s, order, res, ref, sh)
 		}
+		// conflicting duplicates: every message of a second instance of every sender (and every genuine message re-encoded)
+		// delivered after the genuine one, while its round is to come / open / closed
+		conflicts := func(sp SessionSpec, seed int64, ref map[party.ID]string, sh shapeInfo) {
+			cs := conflictHarvest(sp, seed)
+			for _, note := range cs.Notes {
+				c.res.Note("C07 %s conflicting duplicates: %s", sp.Name, note)
+			}
+			for _, pn := range conflictPols {
+				pn := pn
+				c.c07Conflict(sp, seed, pn, func(s *Sim) Policy { s.rng = rand.New(rand.NewSource(seed + 77)); return c07Policy(pn)(s) }, cs, ref, sh)
+			}
+		}
+		conflicts(sp, seed, ref, sh)
 		// signing with the generated material (non-prefix signer subsets)
 		if !cfg.taproot {
 			cfgs := map[party.ID]*frost.Config{}
@@ -243,6 +269,11 @@ func runC07(c *ctx) {
 					s, order, res := c.runSchedule(sps, seed+1, func(s *Sim) Policy { s.rng = rand.New(rand.NewSource(seed + int64(k))); return pols[pn](s) })
 					c.checkRun(sps, seed+1, pn, s, order, res, rref, shs)
 				}
+				conflicts(sps, seed+1, rref, shs)
+				// all share holders sign: a signing round then stays open after the first message of a sender
+				spa := specFrostSign(cfgs, ids, []byte("message to sign"), []byte("sg-all"))
+				ra, _, aref := c.runSchedule(spa, seed+2, pols["fifo"])
+				conflicts(spa, seed+2, aref, ra.learnShape())
 			}
 		}
 	}
@@ -251,6 +282,20 @@ func runC07(c *ctx) {
 	if len(c.res.Samples) == 0 {
 		c.res.Sample(1, "no schedules ran")
 	}
+}
+
+var conflictPols = []string{"fifo", "lifo", "latest-first", "random"}
+
+func c07Policy(name string) func(*Sim) Policy {
+	switch name {
+	case "lifo":
+		return func(*Sim) Policy { return policyLIFO() }
+	case "latest-first":
+		return func(*Sim) Policy { return policyLatestFirst() }
+	case "random":
+		return func(*Sim) Policy { return policyRandom(0) }
+	}
+	return func(*Sim) Policy { return func(*Sim) (int, bool) { return 0, false } }
 }
 
 // xorExhaustiveRun: deliver the initial envelopes in the given order.
